@@ -58,7 +58,9 @@ def impl_ranks(pop, stale=None):
     sel = _SHARED["sel"]
     inds = []
     for k, (c, m) in enumerate(pop):
-        ind = Individual([float(k)])
+        # the design vector is not part of the property: members may share one although their costs differ
+        # (re-evaluated or noisy objectives); every third population has such members
+        ind = Individual([float(k % max(1, (len(pop) + 1) // 2))] if len(pop) % 3 == 0 else [float(k)])
         inds.append(ind)
     if stale is not None:
         for ind, (c, m) in zip(inds, stale):
